@@ -101,7 +101,7 @@ def regular_case(case):
     if true_idx is not None and not case["noise"] and not case["tilt"]:
         err = abs(int(idx) - true_idx) / f.size
         bound = ACCURACY[meth][0 if case["baseline_fraction"] >= 0.5 else 1]
-        if err > bound:
+        if not err <= bound:
             viol("accuracy", f"frac={case['baseline_fraction']:.2f}",
                  f"index {idx}, true contact {true_idx}: |d|/len = "
                  f"{err:.3f} > stated {bound}")
